@@ -13,7 +13,7 @@ from clikit.api.exceptions import CliKitException
 from clikit.io.buffered_io import BufferedIO
 from clikit.ui.components.exception_trace import ExceptionTrace, Highlighter
 
-from harness.tracegen import blankfirst, inner
+from harness.tracegen import blankfirst, inner, mlstring
 from harness.tracegen.lib import outer
 from vf.sym import conc_bool, conc_int, isolated, untraced
 
@@ -37,9 +37,11 @@ exec(compile("def nosource(msg):\n    raise ValueError(msg)\n", "<generated-no-s
 
 # (how to raise, expected class name, expected failing line in inner.py or None)
 BLANK_LINES = open(blankfirst.__file__, encoding="utf-8").read().split("\n")
+ML_LINES = open(mlstring.__file__, encoding="utf-8").read().split("\n")
+OTHER_SOURCES = {"blank_first": (BLANK_LINES, set()), "mlstring": (ML_LINES, {3, 4, 5, 6})}      # site -> (source lines, lines that belong to a multi-line token)
 SITES = [("first", "ValueError", 2), ("markup", "KeyError", 10), ("multi", "RuntimeError", 16), ("deep1", "IndexError", 21), ("deep3", "IndexError", 21), ("deep60", "IndexError", 21),
          ("custom", "Custom", 27), ("chained1", "RuntimeError", 37), ("chained2", "RuntimeError", 36), ("last", "ValueError", 38), ("nosource", "ValueError", None), ("nosource_mid", "ValueError", 2), ("library", "CliKitException", None), ("blank_first", "ValueError", 4),
-         ("emptyname", "ValueError", None), ("relname", "ValueError", None), ("symlinked", "IndexError", 21)]
+         ("mlstring", "ValueError", 8), ("emptyname", "ValueError", None), ("relname", "ValueError", None), ("symlinked", "IndexError", 21)]
 
 
 def _raise(site, msg):
@@ -67,6 +69,8 @@ def _raise(site, msg):
         OUTER_LNK.call("deep", 3, msg)
     elif site == "blank_first":
         blankfirst.blank_first(msg)
+    elif site == "mlstring":
+        mlstring.ml_inner(msg)
     else:
         outer.call(site, msg)
 
@@ -106,11 +110,13 @@ def _norm(text):
     return re.sub(r"\s+", " ", text).strip()
 
 
-def _render(exc, verbosity, simple, utf8, ignore):
+def _render(exc, verbosity, simple, utf8, ignore, trace=None, keep=None):
     io = BufferedIO(supports_utf8=utf8)
     io.set_verbosity([0, 1, 2, 4][verbosity])
-    t = ExceptionTrace(exc)
-    if ignore is not None:
+    t = trace if trace is not None else ExceptionTrace(exc)
+    if keep is not None:
+        keep.append(t)
+    if ignore is not None and trace is None:
         t.ignore_files_in(ignore)
     t.render(io, simple)
     return io.fetch_output()
@@ -149,9 +155,9 @@ def _check_render(out, site, cls, line, msg, verbosity, simple, utf8, ignore):
     arrow = "→" if utf8 else ">"
     if any(b[1] and b[1] != arrow for b in block):
         return False
-    src_lines = BLANK_LINES if site == "blank_first" else SRC_LINES
+    src_lines, exempt = OTHER_SOURCES.get(site, (SRC_LINES, MULTI_TOKEN_LINES))
     for n, _, text in block:
-        if n in MULTI_TOKEN_LINES and site != "blank_first":
+        if n in exempt:
             continue
         if n > len(src_lines) or text.rstrip() != src_lines[n - 1].rstrip():
             return False                               # source lines made of single-line tokens appear verbatim
@@ -164,7 +170,7 @@ def _check_render(out, site, cls, line, msg, verbosity, simple, utf8, ignore):
         if (ignore == IGNORES[4] and verbosity < 3 and listed) or ((ignore is None or verbosity == 3) and not listed):
             return False
     # frames under an ignored path are left out of the stack listing unless the verbosity is debug
-    if verbosity >= 1 and site not in ("nosource", "library", "nosource_mid", "blank_first", "emptyname", "relname", "symlinked"):
+    if verbosity >= 1 and site not in ("nosource", "library", "nosource_mid", "blank_first", "emptyname", "relname", "symlinked", "mlstring"):
         listed_outer = "tracegen/lib/outer.py" in out
         listed_inner_frames = len(re.findall(r"tracegen/inner\.py:\d+ in ", out))
         if ignore == IGNORES[1] and verbosity < 3 and listed_outer:
@@ -176,7 +182,7 @@ def _check_render(out, site, cls, line, msg, verbosity, simple, utf8, ignore):
     return True
 
 
-def _render_case(site_i, msg_i, verbosity, simple, utf8, ignore_i, second_ignore_i, second_verbosity):
+def _render_case(site_i, msg_i, verbosity, simple, utf8, ignore_i, second_ignore_i, second_verbosity, same_trace=False, utf8_2=None):
     site, cls, line = SITES[site_i]
     msg = MESSAGES[msg_i]
     try:
@@ -185,14 +191,22 @@ def _render_case(site_i, msg_i, verbosity, simple, utf8, ignore_i, second_ignore
         exc = e
     else:
         return False
-    out = _render(exc, verbosity, simple, utf8, IGNORES[ignore_i])          # must not raise
+    kept = []
+    out = _render(exc, verbosity, simple, utf8, IGNORES[ignore_i], keep=kept)          # must not raise
     if not _check_render(out, site, cls, line, msg, verbosity, simple, utf8, IGNORES[ignore_i]):
         return False
     if second_ignore_i is not None:
         # a later render in the same process, with another ignore pattern, is judged on its own
-        out2 = _render(exc, second_verbosity, False, utf8, IGNORES[second_ignore_i])
-        if not _check_render(out2, site, cls, line, msg, second_verbosity, False, utf8, IGNORES[second_ignore_i]):
-            return False
+        u2 = utf8 if utf8_2 is None else utf8_2
+        if same_trace:
+            # the SAME trace object rendered again, to an I/O with another verbosity / UTF-8 capability (its ignore pattern stays)
+            out2 = _render(exc, second_verbosity, False, u2, IGNORES[ignore_i], trace=kept[0])
+            if not _check_render(out2, site, cls, line, msg, second_verbosity, False, u2, IGNORES[ignore_i]):
+                return False
+        else:
+            out2 = _render(exc, second_verbosity, False, u2, IGNORES[second_ignore_i])
+            if not _check_render(out2, site, cls, line, msg, second_verbosity, False, u2, IGNORES[second_ignore_i]):
+                return False
     return True
 
 
@@ -211,6 +225,15 @@ def render_twice(site_i: int, verbosity: int, ignore_i: int, second_ignore_i: in
     post: _
     """
     return isolated(_render_case, conc_int(site_i, 0, 9), 0, conc_int(verbosity, 0, 3), False, True, conc_int(ignore_i, 0, 2), conc_int(second_ignore_i, 0, 2), conc_int(second_verbosity, 0, 3))
+
+
+def render_same_trace(site_i: int, verbosity: int, utf8: bool, ignore_i: int, second_verbosity: int, utf8_2: bool) -> bool:
+    """
+    pre: 0 <= site_i < 10 and 0 <= verbosity <= 3 and 0 <= ignore_i <= 2 and 0 <= second_verbosity <= 3
+    pre: site_i == PART["site"]
+    post: _
+    """
+    return isolated(_render_case, conc_int(site_i, 0, 9), 0, conc_int(verbosity, 0, 3), False, conc_bool(utf8), conc_int(ignore_i, 0, 2), 0, conc_int(second_verbosity, 0, 3), True, conc_bool(utf8_2))
 
 
 def render_twin(msg_i: int, verbosity: int, simple: bool, utf8: bool, ignore_i: int) -> bool:
@@ -286,5 +309,8 @@ def conditions(tier):
     for si in range(10):
         conds.append({"name": "render_twice[%s]" % SITES[si][0], "fn": render_twice, "timeout": t, "part": {"site": si},
                       "bounds": "raise site %s; two renders in one process (forked per case) with independent ignore patterns and verbosities" % SITES[si][0]})
+    for si in (0, 3, 4, 7):
+        conds.append({"name": "render_same_trace[%s]" % SITES[si][0], "fn": render_same_trace, "timeout": t, "part": {"site": si},
+                      "bounds": "raise site %s; ONE ExceptionTrace object rendered twice, to I/Os of independent verbosity and UTF-8 capability" % SITES[si][0]})
     conds.append({"name": "render_twin", "fn": render_twin, "timeout": t, "expect": "refute", "part": {"site": 1}, "bounds": "reachability twin"})
     return conds
